@@ -385,7 +385,7 @@ fn judge(site: &str, view: Option<&Upd>, counts: bool, exact: bool, o: &Obs, ql:
             // an AS_PATH made of one empty AS_SEQUENCE prints as "" (indistinguishable from no path)
             let norm = |p: &[Seg]| -> Vec<Seg> { if p.len() == 1 && p[0].kind == 2 && p[0].asns.is_empty() { vec![] } else { p.to_vec() } };
             let same = if exact { norm(&back) == norm(&path) } else { spec_hops(&norm(&back)) == spec_hops(&norm(&path)) };
-            if !same { return format!("fail rotomethods:fmt_aspath:parse-back {site} path {:?} printed {}", path, enc(&o.ap)).replace(' ', "_").replacen("_", " ", 2); }
+            if !same { return format!("fail rotomethods:fmt_aspath:parse-back {site} path {} printed {}", join(path.iter().map(|s| format!("{}:{}", s.kind, dots(s.asns.iter()))), ","), enc(&o.ap)); }
         }
     }
     let hops = spec_hops(&path);
